@@ -305,6 +305,19 @@ class Interp:
                 return None
             if isinstance(b, V) and b.tag == 'proj' and b.a.startswith('elem:'):
                 return None
+            if isinstance(b, V) and b.tag == 'attrval':
+                nvs = [v for v in st.env.values() if isinstance(v, Name)]
+                names = None
+                if nvs and all(v.names == nvs[0].names for v in nvs):
+                    names = sorted(nvs[0].names)
+                self.ev_event('attrval_read', e, attr=e.attr, names=names, expr=U(e))
+                return V('attrval_field', e.attr)
+            if e.attr == 'attribute_value':
+                return V('attrval')
+            if e.attr in ('current_attribute', 'new_attribute'):
+                return V('attrholder')
+            if e.attr == 'attribute' and isinstance(b, V) and b.tag == 'attrholder':
+                return V('attrval')
             if e.attr == 'attribute_name':
                 return Name(ai.allnames | {UNK}, client=True)
             if e.attr == 'attribute_names':
@@ -385,6 +398,8 @@ class Interp:
 
     def elem_of(self, it):
         if isinstance(it, V):
+            if it.tag == 'attrval':
+                return it
             if it.tag == 'list':
                 return it.a
             if it.tag == 'dictkeys':
@@ -514,7 +529,7 @@ class Interp:
         if fname in ('six.iteritems',) and argv:
             v = argv[0]
             if isinstance(v, V) and v.tag == 'dictkeys':
-                return V('list', V('tuple', (v.a, None)), False)
+                return V('list', V('tuple', (v.a, V('attrval'))), False)
             return None
         if fname in ('list', 'sorted', 'reversed', 'tuple') and e.args:
             v = argv[0]
@@ -533,7 +548,9 @@ class Interp:
             ov, o = self.obj_var(e.args[0], st)
             fld = argv[1]
             if o is not None and isinstance(fld, V) and fld.tag == 'const' and isinstance(fld.a, str):
-                if fname == 'getattr':
+                if fname == 'getattr' and len(e.args) >= 3:
+                    pass       # a default is supplied: no AttributeError
+                elif fname == 'getattr':
                     missing = sorted(t for t in o.types if fld.a not in ai.fields[t])
                     self.ev_event('attr_read', e, var=ov, attr=fld.a, missing=missing, obj=o.describe())
                 elif fname == 'setattr':
@@ -704,10 +721,11 @@ class Interp:
         if isinstance(test, ast.Call):
             f = test.func
             fs = call_name(test) or ''
-            if fs == 'hasattr' and len(test.args) == 2 and isinstance(test.args[1], ast.Constant):
+            if fs == 'hasattr' and len(test.args) == 2:
                 ov, o = self.obj_var(test.args[0], st)
-                if o is not None:
-                    fld = test.args[1].value
+                fv = self.ev_quiet(test.args[1], st)
+                if o is not None and isinstance(fv, V) and fv.tag == 'const' and isinstance(fv.a, str):
+                    fld = fv.a
                     ts = frozenset(t for t in o.types if (fld in ai.fields[t]) == pol)
                     if not ts:
                         return None
